@@ -117,6 +117,7 @@ Spec == Init /\ [][Next]_vars
 
 
 Inv_S1 == S1w(wire, Base.nout)
+Inv_S6 == S6w(wire)
 Inv_S2 == S2w(wire)
 Inv_End == Done => /\ S3r(res) /\ S4j(wire, ep.jout) /\ S5c(wire, Base.nout, ep.sout) /\ ep.nout = ep.sout
                    /\ (WithRR => ep.cs = "ACTIVE")
